@@ -44,7 +44,7 @@ class C04(Check):
         k = 2600 if tier == 'quick' else 10 ** 7
         names = ['top', 'group', 'roll', 'roll_eq', 'split', 'group>roll', 'roll>group', 'top']
         for j in range(k):
-            if j == 40 or (tier == 'thorough' and j % 4000 == 40):
+            if j == 3 or (tier == 'thorough' and j % 4000 == 40):
                 # more than 65536 groups open at the same time (a high-cardinality key): 16-bit index fields, free lists, block walks
                 n_keys = 66000 + rng.randint(0, 3000)
                 yield {'key': 'mod:%d' % (n_keys + 7), 'parent': 'top', 'parent_node': None, 'items': list(range(n_keys)) + [5, 70, 65540], 'inner': 'per-item',
